@@ -786,6 +786,27 @@ def case_radon_rect(ctx, model, case, with_model=True):
     ctx.dist[f"radon-rect:theta={'default' if thetas is None else 'given'}"] += 1
     ctx.mark(("radon-rect", H, W, kind, thetas is None, form))
     key = "radon-default-theta" if thetas is None and H == W else "radon-nonsquare"
+    Bn = case.get("B", 1)
+    if Bn > 1:          # a batch of H x W images in one call: every item must be scikit-image's sinogram of that item
+        stack = np.stack([make_rect(kind, H, W, seed + b) for b in range(Bn)])
+        ctx.dist[f"radon-rect:batch={Bn}"] += 1
+        try:
+            gotb = t_radon(stack, thetas, case.get("layout", "contig"), case.get("theta_layout", "f32"), form, device)
+        except Exception as e:  # noqa
+            ctx.pred_fail(key, f"radon_torch raised {err_name(e)} on a batch of {Bn} {H} x {W} images: {str(e)[:160]}", case, observed=err_name(e), required="sinograms")
+            return
+        for b in range(Bn):
+            refb = s_radon((stack[b] * disc_rect(H, W)).astype(np.float64), thetas)
+            if gotb.ndim != 3 or gotb[b].shape != refb.shape:
+                ctx.pred_fail("radon-shape", f"radon_torch output shape on a batch of {Bn} {H} x {W} images", case, observed=list(gotb.shape), required=[Bn] + list(refb.shape))
+                return
+            d = maxdiff(gotb[b], refb)
+            ctx.stat_max("radon-rect torch-vs-skimage rel", d / scale(refb))
+            if d > TOL_PRED * scale(refb):
+                ctx.pred_fail(key, f"radon_torch on a batch of {Bn} {H} x {W} images differs from skimage.transform.radon(circle=True) of the "
+                              f"disc-masked item {b} by {d:.3g} (tolerance {TOL_PRED * scale(refb):.3g})", dict(case, image_index=b),
+                              observed=worst(gotb[b], refb), required="agreement")
+        return
     try:
         got = t_radon(img, thetas, "contig", case.get("theta_layout", "f32"), form, device)
     except Exception as e:  # noqa
@@ -1281,6 +1302,9 @@ def fixed_g6():
             k += 1
         out.append({"kind": "radon-rect", "H": 9, "W": 6, "img": "random", "seed": 1400 + k, "thetas": th, "_model": False})
         out.append({"kind": "radon-rect", "H": 5, "W": 8, "img": "ramp", "seed": 1500 + k, "thetas": th, "_model": False})
+        out.append({"kind": "radon-rect", "H": 6 + k % 3, "W": 11 - k % 2, "img": "random", "seed": 1550 + k, "thetas": th, "B": 2 + k % 4,
+                    "layout": ["contig", "permuted", "transposed"][k % 3], "_model": False})
+        out.append({"kind": "radon-rect", "H": 12 - k % 2, "W": 7 + k % 3, "img": "int", "seed": 1580 + k, "thetas": th, "B": 3 + k % 3, "_model": False})
         for N, circle, filt in ((9, True, "hann"), (10, True, "ramp"), (12, False, "shepp-logan")):
             if edge_distance(N, th, circle) > 1e-3:
                 out.append({"kind": "iradon", "N": N, "A": len(th), "sino": "random", "seeds": [1600 + k], "thetas": th, "filter": filt,
